@@ -12,6 +12,7 @@ import (
 	"runtime"
 	"runtime/debug"
 	"sort"
+	"strconv"
 	"strings"
 	"sync"
 	"time"
@@ -24,7 +25,9 @@ type VC []int32
 
 func (a VC) clone() VC {
 	b := make(VC, len(a))
-	copy(b, a)
+	for i, x := range a {
+		b[i] = x
+	}
 	return b
 }
 
@@ -85,9 +88,10 @@ const (
 
 // object is anything with an identity that a transition can touch.
 type object struct {
-	id   int
-	name string
-	vc   VC
+	id    int
+	name  string
+	vc    VC
+	syncw uint64 // race build: address standing for the object's synchronisation clock
 }
 
 type arm struct {
@@ -115,6 +119,14 @@ type opResult struct {
 	val      any
 	ok       bool
 	panicMsg string
+
+	// race build: what the thread must tell the race detector about the
+	// transition it took part in
+	kind    accKind
+	partner *thread   // kRendezvous
+	ch      *chanCore // channel transitions
+	slot    int       // buffered slot index
+	obj     *object   // kRead/kWrite
 }
 
 // access kinds of a transition, for the independence relation
@@ -208,6 +220,8 @@ type thread struct {
 	exited bool // goroutine is gone (or never needs a wake)
 	parent int
 	nspawn int
+	syncw  uint64        // race build: the thread's clock at its last announcement
+	gone   chan struct{} // closed when the goroutine has exited
 }
 
 // Event is a harness-visible record, stamped with the thread's vector clock.
@@ -296,6 +310,7 @@ type sched struct {
 	lastTid  int
 	alive    int
 	addrObjs map[any]*object
+	abortw   uint64 // race build: orders the teardown of leftover goroutines
 
 	ex *Exec
 }
@@ -335,10 +350,10 @@ func enter() *thread {
 func Active() bool { return S != nil && !S.aborting }
 
 func (s *sched) spawn(parent *thread, f func()) *thread {
-	t := &thread{id: len(s.threads), wake: make(chan struct{}, 1), parent: -1}
+	t := &thread{id: len(s.threads), wake: make(chan struct{}, 1), parent: -1, gone: make(chan struct{})}
 	if parent != nil {
 		t.parent = parent.id
-		t.name = fmt.Sprintf("%s.%d", parent.name, parent.nspawn)
+		t.name = parent.name + "." + strconv.Itoa(parent.nspawn)
 		parent.nspawn++
 		parent.vc = parent.vc.clone()
 		t.vc = parent.vc.clone()
@@ -357,10 +372,16 @@ func (s *sched) spawn(parent *thread, f func()) *thread {
 		s.ex.MaxAlive = s.alive
 	}
 	s.wg.Add(1)
+	// the spawn edge is the runtime's own (the go statement); the native
+	// hand-offs between thread goroutines are hidden from the race detector
 	go func() {
+		defer close(t.gone)
 		defer s.wg.Done()
+		raceOff()
 		<-t.wake
+		raceOn()
 		if s.aborting {
+			raceAcquire(&s.abortw)
 			t.exited = true
 			return
 		}
@@ -372,6 +393,9 @@ func (s *sched) spawn(parent *thread, f func()) *thread {
 			}
 			t.done = true
 			s.alive--
+			if RaceBuild {
+				raceRelease(&t.syncw)
+			}
 			if r != nil {
 				s.ex.Term = TermCrash
 				s.ex.CrashTid = t.id
@@ -411,6 +435,7 @@ func (s *sched) handoff(from *thread) {
 	if next != nil && next == from {
 		return
 	}
+	raceOff()
 	if next != nil {
 		s.cur = next
 		next.wake <- struct{}{}
@@ -419,18 +444,61 @@ func (s *sched) handoff(from *thread) {
 	}
 	if from != nil {
 		<-from.wake
+		raceOn()
 		if s.aborting {
+			raceAcquire(&s.abortw)
 			runtime.Goexit()
 		}
+		return
 	}
+	raceOn()
 }
 
 // do announces an op for thread t and returns once it has been performed.
 func (t *thread) do(o *op) opResult {
 	s := S
+	if RaceBuild {
+		// publish this thread's clock as of the operation (nothing happens
+		// on this goroutine between the announcement and the wake-up)
+		raceRelease(&t.syncw)
+	}
 	t.pend = o
 	s.handoff(t)
+	if RaceBuild {
+		t.racePost()
+	}
 	return t.res
+}
+
+// racePost emits, on the thread's own goroutine, the synchronisation Go's
+// runtime performs for the primitive the thread just executed (runtime/chan.go:
+// racesync for unbuffered channels, racenotify for buffered slots,
+// racerelease/raceacquire on close and receive-from-closed; a mutex-like
+// release/acquire for context cancellation and the sync/atomic shims).
+func (t *thread) racePost() {
+	r := &t.res
+	if r.arm < 0 {
+		return
+	}
+	switch r.kind {
+	case kRendezvous:
+		if r.partner != nil {
+			raceAcquire(&r.partner.syncw)
+		}
+	case kBufSend, kBufRecv:
+		w := &r.ch.slotw[r.slot]
+		raceAcquire(w)
+		raceReleaseMerge(w)
+	case kClose:
+		raceReleaseMerge(&r.ch.closew)
+	case kClosedRecv:
+		raceAcquire(&r.ch.closew)
+	case kWrite:
+		raceAcquire(&r.obj.syncw)
+		raceReleaseMerge(&r.obj.syncw)
+	case kRead:
+		raceAcquire(&r.obj.syncw)
+	}
 }
 
 // pickNext returns the thread to run next: one from the run queue (threads
@@ -585,7 +653,7 @@ func (s *sched) apply(tr Trans) {
 		return
 	}
 	a := &o.arms[tr.Arm]
-	t.res = opResult{arm: tr.Arm}
+	t.res = opResult{arm: tr.Arm, kind: tr.Kind, ch: a.ch, obj: a.obj}
 	switch a.kind {
 	case aSend:
 		c := a.ch
@@ -595,7 +663,8 @@ func (s *sched) apply(tr Trans) {
 		case kRendezvous:
 			p := s.threads[tr.Ptid]
 			p.pend = nil
-			p.res = opResult{arm: tr.Parm, val: a.val, ok: true}
+			p.res = opResult{arm: tr.Parm, val: a.val, ok: true, kind: kRendezvous, partner: t, ch: c}
+			t.res.partner = p
 			j := joinVC(t.vc, p.vc)
 			t.vc = j
 			p.vc = j.clone()
@@ -604,6 +673,7 @@ func (s *sched) apply(tr Trans) {
 		case kBufSend:
 			k := c.nsent
 			c.nsent++
+			t.res.slot = k % c.cap
 			if k >= c.cap {
 				// receive k-cap happens-before send k completes
 				t.vc = joinVC(t.vc, c.recvVC[(k-c.cap)%c.cap])
@@ -631,6 +701,7 @@ func (s *sched) apply(tr Trans) {
 		case kBufRecv:
 			e := c.buf[0]
 			c.buf = c.buf[1:]
+			t.res.slot = c.nrecv % c.cap
 			t.vc = joinVC(t.vc, e.vc)
 			s.tick(t)
 			if c.recvVC == nil {
@@ -693,9 +764,15 @@ func Go(f func()) {
 	t := s.spawn(p, f)
 	s.runq = append(s.runq, p)
 	s.cur = t
+	if RaceBuild {
+		raceRelease(&p.syncw)
+	}
+	raceOff()
 	t.wake <- struct{}{}
 	<-p.wake
+	raceOn()
 	if s.aborting {
+		raceAcquire(&s.abortw)
 		runtime.Goexit()
 	}
 }
@@ -743,6 +820,7 @@ func RunOnce(cfg Config, body func(), chooser Chooser) *Exec {
 	S = s
 	t0 := s.spawn(nil, body)
 	s.cur = t0
+	raceOff()
 	t0.wake <- struct{}{}
 	<-s.doneCh
 	// Give the thread that called finish() time to park or exit: it either
@@ -756,22 +834,40 @@ func RunOnce(cfg Config, body func(), chooser Chooser) *Exec {
 		s.ex.Threads = append(s.ex.Threads, info)
 	}
 	s.aborting = true
+	raceOn()
+	// Tear down what is left, one goroutine at a time and in plain view of the
+	// race detector: killed goroutines run their deferred functions (code of
+	// the program under test), and those must not appear to run concurrently.
+	tm := time.NewTimer(20 * time.Second)
+	if RaceBuild {
+		// everything the threads did during the execution happens-before the teardown
+		for _, t := range s.threads {
+			select {
+			case <-t.gone:
+			default:
+			}
+			raceAcquire(&t.syncw)
+		}
+	}
+teardown:
 	for _, t := range s.threads {
+		raceReleaseMerge(&s.abortw)
 		select {
 		case t.wake <- struct{}{}:
 		default:
 		}
-	}
-	waitc := make(chan struct{})
-	go func() { s.wg.Wait(); close(waitc) }()
-	tm := time.NewTimer(20 * time.Second)
-	select {
-	case <-waitc:
-	case <-tm.C:
-		s.ex.Term = TermToolError
-		s.ex.ToolErr = "teardown: goroutines of the execution did not exit (native blocking operation in explored code?)"
+		select {
+		case <-t.gone:
+		case <-tm.C:
+			s.ex.Term = TermToolError
+			s.ex.ToolErr = "teardown: goroutines of the execution did not exit (native blocking operation in explored code?)"
+			break teardown
+		}
 	}
 	tm.Stop()
+	if s.ex.Term != TermToolError {
+		s.wg.Wait()
+	}
 	S = nil
 	return s.ex
 }
